@@ -56,6 +56,7 @@ TAKES_K = {"subk", "sqk"}
 _seq = itertools.count(1)
 _lock = threading.Lock()
 WAIT_S = float(os.environ.get("VERIF_TURNSTILE_WAIT", "60"))
+GAP_S = float(os.environ.get("VERIF_TURNSTILE_GAP", "0.004"))    # head start for the predecessor's result on its way to the caller
 
 
 def log_event(d, rec):
@@ -96,6 +97,7 @@ def turnstile(d, run, i, pred, w):
             if sum(x[0] == "s" for x in names) - sum(x[0] == "e" for x in names) >= w and not os.path.exists(ps):
                 return os.path.exists(m)
         time.sleep(0.0005)
+    time.sleep(GAP_S)
     return True
 
 
